@@ -162,3 +162,64 @@ H("C19", "hpoterm", "c19_is_modifier_u4", tier="thorough", mem="heavy", tt=3600,
 H("C19", "hpoterm", "c19_term_categories_u2", mem="medium", tq=900, bounds="own id any u32; ancestors, categories = any subsets of an ascending symbolic universe of 2")
 H("C19", "hpoterm", "c19_term_categories_u3", tier="thorough", mem="heavy", tt=3600, deep=True, bounds="same, universe of 3")
 H("C19", "ontology", "c19_twin_must_fail", expect="fail", args=FS)
+
+# ------------------------------------------------------------------------------------------------
+# C06
+# ------------------------------------------------------------------------------------------------
+PROPERTIES["C06"] = dict(
+    functions=["Hypergeometric::new/min/max/sf", "ln_binomial", "ln_factorial", "FCACHE"],
+    bounds="sf: all (N,K,n,x) with K,n <= N <= 6, x <= 7; ln_binomial: n,k <= 255; ln_factorial: x <= u32::MAX; new: all u64; unwind 9 (173 for the table)",
+    stubs=["ln_binomial -> recording stub returning an exact code of (n,k) [sf harness]", "f64::exp -> identity model [sf harness]",
+           "ln_factorial -> recording stub [ln_binomial harness]", "ln_gamma -> recording stub, f64::ln -> identity model [ln_factorial harness]"],
+    outside="every numeric statement: that the sum of exp(...) equals the tail probability, p in [0,1], monotonicity in k, accuracy of the Lanczos "
+            "ln_gamma and of the 170/171 switch; calculate_counts / SampleSet over real ontologies (hash maps); the enrichment record assembly",
+    assumptions=["structure-only: libm functions are replaced by deterministic models"],
+)
+H("C06", "statrs", "c06_sf_tail_terms_and_order", replay="solver-only", bounds="all K,n <= N <= 6, x <= 7", inputs="N,K,n,x u64")
+H("C06", "statrs", "c06_new_rejects_invalid", bounds="all u64 triples", inputs="N,K,n u64")
+H("C06", "statrs", "c06_support_bounds", bounds="N <= u32::MAX", inputs="N,K,n")
+H("C06", "statrs", "c06_ln_binomial_structure", replay="solver-only", bounds="n,k <= 255", inputs="n,k u64")
+H("C06", "statrs", "c06_ln_factorial_table_switch", replay="solver-only", bounds="x <= u32::MAX", inputs="x u64")
+H("C06", "statrs", "c06_factorial_table", bounds="171 concrete entries")
+H("C06", "statrs", "c06_twin_must_fail", expect="fail")
+
+# ------------------------------------------------------------------------------------------------
+# C03
+# ------------------------------------------------------------------------------------------------
+PROPERTIES["C03"] = dict(
+    functions=["InformationContent::set_gene/set_omim_disease/set_orpha_disease (calculate)", "InformationContent::get_kind", "f32_from_usize"],
+    bounds="total, current in 0..=64 or one of the borders 65 535 / 65 536; previous field values any finite f32; monotonicity for total <= 64",
+    stubs=["f32::ln -> deterministic strictly monotone model x-1 (CBMC's ln is non-deterministic)"],
+    outside="the numeric value of libm's ln; the wiring Builder::calculate_information_content -> (record count, per-term set size) "
+            "(hash containers); monotonicity across terms (follows from C02, n/a)",
+    assumptions=["ln is deterministic and monotone (model)"],
+)
+H("C03", "information_content", "c03_kernel_gene", replay="solver-only", bounds="total,current in 0..=64 + {65535,65536}", inputs="total,current usize; 3 finite f32")
+H("C03", "information_content", "c03_kernel_omim", replay="solver-only", bounds="total,current in 0..=64 + {65535,65536}")
+H("C03", "information_content", "c03_kernel_orpha", replay="solver-only", bounds="total,current in 0..=64 + {65535,65536}")
+H("C03", "information_content", "c03_monotone_in_current", replay="solver-only", tq=900, mem="medium", bounds="total <= 64, 1 <= c1 <= c2 <= total")
+H("C03", "information_content", "c03_get_kind_dispatch", bounds="all non-NaN f32 triples")
+H("C03", "information_content", "c03_twin_must_fail", expect="fail")
+
+# ------------------------------------------------------------------------------------------------
+# C05
+# ------------------------------------------------------------------------------------------------
+PROPERTIES["C05"] = dict(
+    functions=["Matrix::new/rows/cols/dim/len/is_empty", "SimilarityCombiner::calculate/row_maxes/col_maxes/dim_f32", "StandardCombiner::fun_sim_avg/fun_sim_max/bma"],
+    bounds="matrix dimensions (r,c) in {1,2,3}^2 as separate instances; entries on the grid k/8, k any u8 (combiners) / any u8 or f32 (views); unwind 5-6",
+    stubs=[],
+    outside="entries off the k/8 grid (full-range f32 is a genuine FP-equivalence query, > 12 min at 2x3); matrices larger than 3x3; "
+            "GroupSimilarity over HpoSets and CachedSimilarity (arena iteration / hash map) unless listed in harnesses",
+    assumptions=["similarity values are finite and >= 0 (grid)"],
+)
+for d in ("1x1", "1x3", "3x1", "2x2", "2x3", "3x2", "3x3"):
+    H("C05", "matrix", "c05_matrix_views_" + d, bounds="dimension %s, entries any u8" % d)
+H("C05", "matrix", "c05_matrix_views_f32_2x3", bounds="2x3, entries any f32 bit pattern")
+H("C05", "matrix", "c05_matrix_twin_must_fail", expect="fail")
+for w in ("funsimavg", "funsimmax", "bma"):
+    for d in ("1x2", "2x1", "2x2"):
+        H("C05", "similarity", "c05_%s_%s" % (w, d), tq=600, bounds="%s, entries k/8" % d, inputs="[u8;%d]" % eval(d.replace("x", "*")))
+    for d in ("2x3", "3x2", "3x3"):
+        H("C05", "similarity", "c05_%s_%s" % (w, d), tier="thorough", mem="medium", tt=3600, deep=(d == "3x3"), bounds="%s, entries k/8" % d)
+H("C05", "similarity", "c05_empty_matrix_is_zero", bounds="0xN / Nx0, N <= 3")
+H("C05", "similarity", "c05_twin_must_fail", expect="fail")
